@@ -21,9 +21,8 @@ TOP = ('top',)
 SELF = ('self',)
 
 
-THRESHOLDS = sorted(set(list(range(0, 18)) + [32, 64, 127, 128, 255, 256, 32767, 32768, 65535, 65536,
-                                               (1 << 31) - 1, 1 << 31, (1 << 32) - 1, 1 << 32, (1 << 63) - 1, 1 << 63,
-                                               (1 << 64) - 1]))
+THRESHOLDS = sorted(set(list(range(0, 9)) + [127, 255, 65535, (1 << 31) - 1, (1 << 32) - 1, (1 << 63) - 1,
+                                              (1 << 64) - 1]))
 NEG_THRESHOLDS = sorted(set([-x for x in THRESHOLDS] + [-129, -32769, -(1 << 31) - 1]))
 
 
@@ -292,7 +291,7 @@ class Interp:
             for k in keys:
                 best = -INF
                 for st in states:
-                    u = st.facts.upper(Lin(k, 0))
+                    u = st.facts.upper(Lin(k, 0), 2)
                     best = max(best, u)
                     if best == INF:
                         break
@@ -556,7 +555,7 @@ class Interp:
                 raise Unsupported('loop at line %s does not stabilise' % line)
             self._dbg_prev = cur
             cand = back if cur is None else [cur] + back
-            new = self.join(cand, tag, base, widen=(it >= 3), prev=cur, hard=(it >= 9))
+            new = self.join(cand, tag, base, widen=(it >= 2), prev=cur, hard=(it >= 7))
             if cur is not None and self.same_state(cur, new):
                 break
             cur = new
@@ -654,7 +653,7 @@ class Interp:
             for k, name in diff.items():
                 v = m[k]
                 pn = name + "'"
-                lo, hi = s.facts.lower(v), s.facts.upper(v)
+                lo, hi = s.facts.lower(v, 2), s.facts.upper(v, 2)
                 tlo, thi = self._loc_type_range(k)
                 lo, hi = max(lo, tlo), min(hi, thi)
                 if (lo, hi) != (-INF, INF):
@@ -766,7 +765,7 @@ class Interp:
             best = -INF
             l = Lin(terms, 0)
             for f in abst:
-                u = f.upper(l)
+                u = f.upper(l, 2)
                 if u > best:
                     best = u
                 if best == INF:
@@ -1074,6 +1073,10 @@ class Interp:
             raise Unsupported('integral cast of non-integer at line %s' % node_pos(n)[1])
         lo, hi = self.type_range(n['type'])
         vlo, vhi = s.facts.lower(v), s.facts.upper(v)
+        if vlo < lo:
+            vlo = s.facts.lower(v, 2, lo)
+        if vhi > hi:
+            vhi = s.facts.upper(v, 2, hi)
         if vlo >= lo and vhi <= hi:
             return v
         if v.is_const():
@@ -1277,6 +1280,10 @@ class Interp:
                         c -= 1 << bits
                 return Lin.c(c)
             lo, hi = s.facts.lower(r), s.facts.upper(r)
+            if lo < tlo:
+                lo = s.facts.lower(r, 2, tlo)
+            if hi > thi:
+                hi = s.facts.upper(r, 2, thi)
             if lo >= tlo and hi <= thi:
                 if signed:
                     s.ev('ob', n, ob='sovf', ok=True, value=r, op=op)
